@@ -22,6 +22,8 @@ TREES = [
     # aliases on the path keywords
     "crate as root", "super as parent", "super::super as gp", "{crate as k, std::fmt as f}",
     "self::a as b", "crate::a as c",
+    # a nested empty list that is not the last element of its list
+    "a::{b, c::{}, d}", "a::{c::{}, b}",
 ]
 VIS = ["", "pub ", "pub(crate) ", "pub(super) ", "pub(in crate::m) ", "pub(in crate::m::n) ",
        "pub(in super::super) "]
